@@ -8,12 +8,12 @@ MATCH = r"match_node_with_env"
 OPS_DECIDED_C04 = "frame law on trait Matcher (None => env unchanged; Some => env exactly the reference env) proved for &T, MatchAll, MatchNone, Op, Or, Not, And, All, Any"
 PROPS = {
     "C01": {
-        "units": [("ops", KINDS), ("rule_core", KINDS + "|do_match|with_"), ("rule", KINDS), ("combined", r"CombinedScan|lemma"), ("pattern", KINDS + "|match_node_impl|match_node_non_recursive"), ("atomic", KINDS), "find_all", ("referent", KINDS + "|eval_"), "traversal", "visit", "scan"],
+        "units": [("ops", KINDS), ("rule_core", KINDS + "|do_match|with_"), ("rule", KINDS), ("combined", r"CombinedScan|lemma"), ("pattern", KINDS + "|match_node_impl|match_node_non_recursive|fixed_string"), ("atomic", KINDS), "find_all", ("referent", KINDS + "|eval_"), "traversal", "visit", "scan"],
         "kani": [],
         "decided": ["FindAllNodes::next returns the first remaining node (pre-order) that the matcher matches when tried from an empty environment: the kind filter drops nothing",
                     "Pre::next / Pre::calibrate_for_match (unit traversal): the dfs iterator yields exactly the pre-order of the subtree; calibrating after a match skips exactly the subtree of the matched node",
                     "Visit::next (unit visit; behind Node::replace_all and the interactive printer): reports the first remaining node that matches when tried individually (named filter respected), then continues right behind it (reentrant) or behind its whole subtree (overlap-free) -- nothing else is dropped", "potential_kinds of every matcher in ops.rs/matcher.rs over-approximates the kinds of nodes it can match (trait-level ensures); All/Any cached kinds sound (type invariant established by new via compute_kinds)"],
-        "not_decided": ["run.rs/scan.rs wiring, injected languages, ordering across files"],
+        "not_decided": ["run.rs/scan.rs wiring, injected languages, ordering across files", "the literal prefilter beyond its signature guard: that the longest token text occurs in every matching file (PatternNode::fixed_string is an iterator fold; node text containment is a tree-sitter fact)"],
         "assumptions": [],
     },
     "C02": {
